@@ -2,19 +2,26 @@
  * through tickit_term_input_push_bytes, cut into chunks at the given offsets; no time-out is
  * forced in between.  Every key and mouse event the terminal emits is logged, then the
  * held-button record.
- * case : <termtype> <hexstream> <cut>,<cut>,..|- [tokens of the whole stream: ignored here]
+ * case : <termtype> <hexstream> <cut>[+<gap>],<cut>[+<gap>],..|- [tokens of the whole stream: ignored here]
+ *        after the chunk that ends at <cut> the virtual clock advances by <gap> microseconds and
+ *        the time-out is polled (tickit_term_input_check_timeout_msec), as an event loop does
  * obs  : k<type>:<mod>:<hexstr>   key event (type 1 = KEY, 2 = TEXT)
  *        m<type>:<button>:<line>:<col>:<mod>   mouse event (1 press, 2 drag, 3 release, 4 wheel)
- *        a<msec>   tickit_term_input_check_timeout_msec after each chunk (-1 = not armed; the clock
- *                  is frozen by a link-time gettimeofday, so an armed time-out reads 50)
+ *        a<msec>   tickit_term_input_check_timeout_msec after each chunk and its gap (-1 = not
+ *                  armed, else the milliseconds left; a forced time-out shows as extra events)
  *        h<mask>   TickitTerm.mouse_buttons_held at the end
  * term.c is included so that the private held-button field can be read. */
 #include "term.c"
 #include "common.h"
 
 #include <sys/time.h>
-/* the clock stands still: the inter-byte time-out can be observed but never expires */
-int __wrap_gettimeofday(struct timeval *tv, void *tz) { tv->tv_sec = 1000000; tv->tv_usec = 0; return 0; }
+/* virtual clock (microseconds), advanced only by the gaps of the case */
+static long long vclock;
+int __wrap_gettimeofday(struct timeval *tv, void *tz)
+{
+  long long v = 1000000LL * 1000000LL + vclock;
+  tv->tv_sec = v / 1000000; tv->tv_usec = v % 1000000; return 0;
+}
 
 static char out[1 << 18];
 static size_t outn;
@@ -42,7 +49,7 @@ int main(void)
 {
   while(vh_next()) {
     if(vh_ntok < 3) { printf("ERR case\n"); fflush(stdout); continue; }
-    outn = 0; out[0] = 0;
+    outn = 0; out[0] = 0; vclock = 0;
     size_t len; unsigned char *b = vh_hex(vh_tok[1], &len);
     /* a leading '!' marks a stream with malformed parts (robustness only, see tools/props/C20.py) */
     TickitTerm *tt = tickit_term_build(&(struct TickitTermBuilder){ .termtype = vh_tok[0] + (vh_tok[0][0] == '!') });
@@ -54,6 +61,8 @@ int main(void)
     if(strcmp(vh_tok[2], "-") != 0) {
       char *save = NULL;
       for(char *c = strtok_r(vh_tok[2], ",", &save); c; c = strtok_r(NULL, ",", &save)) {
+        char *plus = strchr(c, '+');
+        long long gap = plus ? atoll(plus + 1) : 0;
         size_t cut = strtoul(c, NULL, 10);
         if(cut < pos || cut > len) continue;
         /* each chunk in its own exactly-sized block so that ASan sees an over-read */
@@ -61,6 +70,7 @@ int main(void)
         memcpy(chunk, b + pos, cut - pos);
         tickit_term_input_push_bytes(tt, chunk, cut - pos);
         free(chunk);
+        vclock += gap;
         OUT("a%d ", tickit_term_input_check_timeout_msec(tt));
         pos = cut;
       }
